@@ -487,6 +487,26 @@ func c17Contract(env *core.Env) {
 	if it, ok := rr.Single(); !ok || it.T != "3" || p.calls != 2 {
 		env.Violatef("C17/custom/two-calls", "`name[0].one().count() + name.one().count()` => %s with %d calls, expected 3 with 2", trunc(rr.Short(), 100), p.calls)
 	}
+	// one compiled expression whose custom-function argument is a variable, evaluated with changing values
+	if exv, cr := fx.Compile(env, "Patient.two(%s).first()", co...); exv != nil {
+		for round, val := range []string{"first", "second", "third", "first"} {
+			*p = c17Probe{}
+			rv := fx.Evaluate(env, exv, one, evalopts.EnvVariable("s", system.String(val)))
+			if p.calls != 1 || len(p.args) != 1 || p.args[0][0] != system.String(val) {
+				env.Violatef("C17/custom/stale-argument", "`Patient.two(%%s)` evaluated for the %d. time with s = %q: the function received %v (calls=%d)", round+1, val, p.args, p.calls)
+			}
+			if it, ok := rv.Single(); !ok || it.T != val {
+				env.Violatef("C17/custom/stale-argument", "`Patient.two(%%s).first()` with s = %q => %s", val, trunc(rv.Short(), 80))
+			}
+		}
+		*p = c17Probe{}
+		if rv := fx.Evaluate(env, exv, one); rv.Kind != "error" || p.calls != 0 {
+			env.Violatef("C17/custom/stale-argument", "`Patient.two(%%s)` evaluated without the variable after evaluations with it: %s, calls=%d (expected an unknown-variable error)", trunc(rv.Short(), 80), p.calls)
+		}
+		env.Cover("custom-variable-argument")
+	} else {
+		env.Violatef("C17/harness-program-rejected", "`Patient.two(%%s).first()` does not compile: %s", cr.Short())
+	}
 	// argument of the wrong type / multi-item / empty: error, function not called
 	for _, src := range []string{"Patient.two(1)", "Patient.two(Patient.name.given)", "Patient.two({})", "Patient.three('z', 1)"} {
 		*p = c17Probe{}
